@@ -94,7 +94,8 @@ M0(P, orc, regkeys, accs, uf) ==
       [pc |-> 1, status |-> "run", env |-> [i \in 1..P.nv |-> 0], defd |-> {}, ever |-> {},
        last |-> <<>>, ocur |-> 0, scur |-> 0, log |-> <<>>, fault |-> "none", steps |-> 0,
        regs |-> [key \in regkeys |-> [def |-> FALSE, v |-> 0]],
-       cur |-> [a \in accs |-> 0], uf |-> uf, mem |-> MemInit, core |-> 0],
+       cur |-> [a \in accs |-> 0], uf |-> uf, core |-> 0, rd |-> {}, wr |-> {},
+       mem |-> IF P.dma = 1 THEN [a \in 1..P.memtop |-> IF a <= P.srctop THEN a ELSE 0] ELSE <<>>],
       P.args, ArgVals(P, orc))
 
 Fault(m, f) == [m EXCEPT !.fault = IF @ = "none" THEN f ELSE @, !.status = "fault"]
@@ -275,9 +276,47 @@ StepSubview(P, m, op) ==
       t == InternAll(m.uf, <<"subview", <<>>, <<dyn[1]>> \o offs \o sizes \o strs>>, 1, <<>>) IN
   Adv(Def(P, [m EXCEPT !.uf = t[1]], op.r, t[2]))
 
-StepDim(P, m, op) ==
+(* memref function arguments may come with a run-time descriptor chosen by the oracle:
+   [valid, base (bytes), off (elements), sizes, strides (elements), L (resolved layout)] *)
+ArgTokenBase == 900000
+HasDesc(orc, v) == v > ArgTokenBase /\ v <= ArgTokenBase + Len(orc.desc) /\ orc.desc[v - ArgTokenBase].valid = 1
+DescOf(orc, v) == orc.desc[v - ArgTokenBase]
+
+StepPtr(P, orc, m, op) ==
+  LET v == m.env[op.a[1]] IN
+  IF HasDesc(orc, v) THEN Adv(Def(P, m, op.r, <<DescOf(orc, v).base>>)) ELSE StepPure(P, m, op)
+
+StepMetadata(P, orc, m, op) ==
+  LET v == m.env[op.a[1]] IN
+  IF HasDesc(orc, v)
+  THEN LET d == DescOf(orc, v)  vals == <<0, d.off>> \o d.sizes \o d.strides IN
+       IF Len(vals) = Len(op.r) THEN Adv(Def(P, m, op.r, vals)) ELSE Fault(m, "MetadataArity")
+  ELSE StepPure(P, m, op)
+
+(* DMA engine (runtime/include/snax_rt.h): 1-D copies size bytes; 2-D repeats it with strides *)
+InMem(m, a, n) == n >= 0 /\ a >= 0 /\ a + n <= Len(m.mem)
+Copy1(mem, s, d, n) == [a \in DOMAIN mem |-> IF a - 1 >= d /\ a - 1 < d + n THEN mem[s + (a - 1 - d) + 1] ELSE mem[a]]
+RECURSIVE Copy2(_, _, _, _, _, _, _)
+Copy2(mem, s, d, n, ss, ds, rep) ==
+  IF rep <= 0 THEN mem ELSE Copy2(Copy1(mem, s, d, n), s + ss, d + ds, n, ss, ds, rep - 1)
+Range2(a, n, st, rep) == UNION {(a + r * st)..(a + r * st + n - 1) : r \in 0..(rep - 1)}
+
+StepDma(P, orc, m, op) ==
+  LET v == Vals(m, op.a)
+      two == op.sv[1] = "snax_dma_2d_transfer"
+      s == v[1]  d == v[2]  n == v[3]
+      ss == IF two THEN v[4] ELSE 0  ds == IF two THEN v[5] ELSE 0  rep == IF two THEN v[6] ELSE 1
+      m1 == Log(m, [k |-> "op", i |-> m.pc, n |-> op.n, s |-> op.sv, vals |-> v]) IN
+  IF n < 0 \/ rep < 0 THEN Fault(m1, "DmaNegativeSize")
+  ELSE IF rep > 0 /\ n > 0 /\ ~(\A r \in 0..(rep - 1) : InMem(m, s + r * ss, n) /\ InMem(m, d + r * ds, n)) THEN Fault(m1, "DmaOutOfMemory")
+  ELSE Adv([m1 EXCEPT !.mem = Copy2(@, s, d, n, ss, ds, rep),
+                      !.rd = @ \cup Range2(s, n, ss, rep), !.wr = @ \cup Range2(d, n, ds, rep)])
+
+StepDim(P, orc, m, op) ==
   LET src == m.env[op.a[1]]  idx == m.env[op.a[2]] IN
-  IF IsInterned(m, src) /\ KeyOf(m, src)[1] = "alloc" /\ idx >= 0 /\ idx < Len(KeyOf(m, src)[3])
+  IF HasDesc(orc, src) /\ idx >= 0 /\ idx < Len(DescOf(orc, src).sizes)
+  THEN Adv(Def(P, m, op.r, <<DescOf(orc, src).sizes[idx + 1]>>))
+  ELSE IF IsInterned(m, src) /\ KeyOf(m, src)[1] = "alloc" /\ idx >= 0 /\ idx < Len(KeyOf(m, src)[3])
   THEN Adv(Def(P, m, op.r, <<KeyOf(m, src)[3][idx + 1]>>))
   ELSE IF IsInterned(m, src) /\ KeyOf(m, src)[1] = "subview" /\ idx >= 0 /\ idx < (Len(KeyOf(m, src)[3]) - 1) \div 3
   THEN Adv(Def(P, m, op.r, <<KeyOf(m, src)[3][1 + ((Len(KeyOf(m, src)[3]) - 1) \div 3) + idx + 1]>>))
@@ -303,11 +342,15 @@ MStepRaw(P, orc, m) ==
          [] op.k = "await" -> StepAwait(P, m, op)
          [] op.k = "reset" -> StepReset(P, m, op)
          [] op.k = "asm" -> StepAsm(P, orc, m, op)
-         [] op.k \in {"call", "eff"} -> StepOpaque(P, orc, m, op)
+         [] op.k \in {"call", "eff"} /\ ~(op.k = "call" /\ op.sv[1] \in {"snax_dma_1d_transfer", "snax_dma_2d_transfer"} /\ Len(m.mem) > 0)
+              -> StepOpaque(P, orc, m, op)
          [] op.k = "pure" -> StepPure(P, m, op)
          [] op.k = "alloc" -> StepAlloc(P, m, op)
          [] op.k = "subview" -> StepSubview(P, m, op)
-         [] op.k = "dim" -> StepDim(P, m, op)
+         [] op.k = "dim" -> StepDim(P, orc, m, op)
+         [] op.k = "ptr" -> StepPtr(P, orc, m, op)
+         [] op.k = "metadata" -> StepMetadata(P, orc, m, op)
+         [] op.k = "call" /\ op.sv[1] \in {"snax_dma_1d_transfer", "snax_dma_2d_transfer"} /\ Len(m.mem) > 0 -> StepDma(P, orc, m, op)
          [] op.k \in {"copy", "dealloc", "barrier"} -> StepOpaque(P, orc, m, op)
          [] OTHER -> Fault(m, "Unsupported:" \o op.n)
 
